@@ -336,7 +336,15 @@ func (evm *EVM) Call(ctx context.Context, caller ethvm.ContractRef, addr common.
 						preCallResult.Err = ErrOutOfGas
 					}
 
-					return preCallResult.Ret, preCallResult.Gas, preCallResult.Err
+					// the value transfer and account creation above belong to this frame:
+					// undo them and settle the gas like any other failed frame
+					evm.StateDB.RevertToSnapshot(snapshot)
+					gas = preCallResult.Gas
+					if preCallResult.Err != ErrExecutionReverted {
+						gas = 0
+					}
+
+					return preCallResult.Ret, gas, preCallResult.Err
 				}
 
 				gas = preCallResult.Gas
